@@ -105,7 +105,17 @@ func (s *expStepBStructure) commitmentsFromProof(g zkproof.Group, list []*big.In
 	proofs := zkproof.NewProofMerge(&proof.Bit, &proof.Mul)
 
 	// Generate commitments
-	list = s.mul.commitmentsFromProof(g, list, challenge, proof.Mul)
+	// The multiplier of this step is the value inside the commitment that the surrounding proof knows as
+	// mulname; proof.Mul carries a copy of that commitment. Check the knowledge of its opening against
+	// the commitment itself rather than against the copy, so that a prover who ran the step with a
+	// commitment to another value fails the challenge check.
+	mul := proof.Mul
+	if outer := bases.Base(s.mulname); outer != nil {
+		mul.Commit = outer
+	}
+	mulList := s.mul.commitmentsFromProof(g, nil, challenge, mul)
+	mulList[0] = proof.Mul.Commit
+	list = append(list, mulList...)
 	list = s.bitRep.CommitmentsFromProof(g, list, challenge, bases, &proofs)
 	list = s.prePostMul.commitmentsFromProof(g, list, challenge, bases, &proofs, proof.MultiplicationProof)
 
